@@ -83,6 +83,20 @@ FLAGS = [
 ]
 
 
+# explicit format assignments that fill >= 2 dense output layers through ONE bucket (a contraction or
+# a later output layer is iterated outside them); run with non-square sizes so that the raveled
+# bucket offsets are exercised
+BUCKETS = [
+    ("a(i,j) = b(i,k) * c(k,j)", [{"a": "dd", "b": "d1d0", "c": "ds"}, {"a": "dd", "b": "d1s0", "c": "dd"},
+                                  {"a": "d1d0", "b": "ds", "c": "ds"}, {"a": "dd", "b": "d1d0", "c": "ss"}]),
+    ("a(i,j) = b(j,i)", [{"a": "dd", "b": "ds"}, {"a": "dd", "b": "ss"}, {"a": "d1d0", "b": "s1s0"}]),
+    ("a(i,j) = b(i,j,k) * c(k)", [{"a": "dd", "b": "d1d2d0", "c": "s"}, {"a": "dd", "b": "d2d0d1", "c": "d"}]),
+    ("a(i,j,k) = b(k,i,j)", [{"a": "ddd", "b": "dds"}, {"a": "ddd", "b": "d0s2d1"}]),
+    ("a(i,j,k) = b(j,k,i)", [{"a": "ddd", "b": "d1d2s0"}, {"a": "ddd", "b": "dsd"}]),
+    ("a(i,j) = b(i,k) * c(j,k)", [{"a": "dd", "b": "d1s0", "c": "dd"}, {"a": "dd", "b": "d1d0", "c": "s1s0"}]),
+]
+
+
 # ------------------------------------------------------------------------------------------------
 # running the implementation
 # ------------------------------------------------------------------------------------------------
@@ -419,6 +433,9 @@ def problems_for(chk, thorough: bool) -> list[dict]:
     for t, fms in FLAGS:
         probs.append({"assignment": t, "cap": 1, "nsizes": 3 if thorough else 2, "ninputs": 3, "tag": "flags",
                       "formats": fms, "cycles": False})
+    for t, fms in BUCKETS:
+        probs.append({"assignment": t, "cap": 1, "nsizes": 4 if thorough else 3, "ninputs": 2, "tag": "buckets",
+                      "formats": fms, "cycles": False, "sizes_set": [1, 2, 3]})
     for t in LATTICE:
         probs.append({"assignment": t, "cap": 24 if thorough else 6, "nsizes": 2 if thorough else 1,
                       "ninputs": 6 if thorough else 3, "tag": "lattice", "sizes_set": [2, 3, 4], "prefer_sparse": True})
@@ -521,9 +538,9 @@ def run_kernel_correspondence(chk, prop: str | None = None, budget_cases: int | 
         for i in lists[1]:
             not_ok.append(rows[lo + i])
         outside += len(lists[2])
-    chk.count("C01G.side_conditions_hold(graph_okb)", len(rows) - len(not_ok))
-    chk.count("C01G.in_proved_fragment", len(rows) - outside)
-    chk.count("C01G.outside_fragment(bucket with dense layers)", outside)
+    chk.count("C01G.side_conditions_hold(graph_okb,support_okb)", len(rows) - len(not_ok))
+    chk.count("C01G.output_layers_all_appended", len(rows) - outside)
+    chk.count("C01G.with_bucket_over_dense_layers", outside)
     for case, res in not_ok[:3]:
         # the theorems about G do not apply to this real graph: a broken tie, not a violation
         if res["status"] == "ok":
